@@ -2,10 +2,30 @@
    encoding as integer lists (the format shared with the Rust harness; the
    decoder used by the OCaml driver is this Coq function, extracted).
    Definitions only. *)
-From SV Require Export Base.Ids.
+From SV Require Export Base.Ids Store.Masked.
 
 Definition href := nat.              (* the k-th handle returned so far, 0-based *)
-Definition comps := list (N * Z).    (* (storage id, value) pairs attached by a builder *)
+Definition comps := list (N * tok).  (* (storage id, component value) pairs attached by a builder *)
+
+(* operations on one component storage (through WriteStorage / ReadStorage) *)
+Inductive sop :=
+| SInsert (sid : N) (h : href) (v : tok)
+| SGet (sid : N) (h : href)
+| SGetMut (sid : N) (h : href) (touch : bool) (nv : option Z)
+| SRemove (sid : N) (h : href)
+| SContains (sid : N) (h : href)
+| SCount (sid : N)
+| SIsEmpty (sid : N)
+| SMask (sid : N)
+| SSlice (sid : N)
+| SClear (sid : N)
+| SDrain (sid : N)
+| SEntry (sid : N) (h : href) (eo : entry_op)
+| SGetMutOrDefault (sid : N) (h : href)
+| SRegister (sid : N)               (* register / register_with_storage / SystemData::setup *)
+| SRegReader (sid : N)
+| SReadEvents (sid : N) (k : nat)
+| SSetEmission (sid : N) (b : bool).
 
 Inductive op :=
 (* creation paths *)
@@ -28,6 +48,8 @@ Inductive op :=
 | OJoinEntities                      (* (&entities).join().collect() *)
 | OEntityAt (h : href)               (* entities.entity(index of handle h) *)
 | OProbeAll                          (* entities.is_alive of every handle returned so far *)
+| OStore (so : sop)                  (* a storage operation *)
+| ODropWorld                         (* drop(world) *)
 | OBad.                              (* undecodable: ignored by both sides *)
 
 Inductive wout :=
@@ -38,7 +60,16 @@ Inductive wout :=
 | WBools (l : list bool)
 | WEnts (l : list entity)
 | WUnit
-| WSkip.                             (* refers to a handle not returned yet / bad op *)
+| WSkip
+| WIns (r : ins_res)
+| WOptTok (o : option tok)
+| WNat (n : N)
+| WIdx (l : list N)
+| WToks (l : list tok)
+| WEntry (r : entry_res)
+| WSlice (v : slice_view)
+| WEvents (l : list event)
+| WReader (k : nat).                             (* refers to a handle not returned yet / bad op *)
 
 (* ------------------------------------------------------------------ *)
 (* decoding of histories: each op is  code, n, x1 .. xn *)
@@ -54,9 +85,38 @@ Fixpoint take_n {A} (n : nat) (l : list A) : option (list A * list A) :=
 
 Fixpoint dec_comps (l : list Z) : comps :=
   match l with
-  | s :: v :: l' => (Z.to_N s, v) :: dec_comps l'
+  | s :: u :: v :: l' => (Z.to_N s, (Z.to_N u, v)) :: dec_comps l'
   | _ => []
   end.
+
+Definition zb (b : Z) : bool := negb (Z.eqb b 0).
+
+Definition dec_sop (code : Z) (p : list Z) : option sop :=
+  match code, p with
+  | 30, [s; h; u; v] => Some (SInsert (Z.to_N s) (Z.to_nat h) (Z.to_N u, v))
+  | 31, [s; h] => Some (SGet (Z.to_N s) (Z.to_nat h))
+  | 32, [s; h; t; 0; _] => Some (SGetMut (Z.to_N s) (Z.to_nat h) (zb t) None)
+  | 32, [s; h; t; _; v] => Some (SGetMut (Z.to_N s) (Z.to_nat h) (zb t) (Some v))
+  | 33, [s; h] => Some (SRemove (Z.to_N s) (Z.to_nat h))
+  | 34, [s; h] => Some (SContains (Z.to_N s) (Z.to_nat h))
+  | 35, [s] => Some (SCount (Z.to_N s))
+  | 36, [s] => Some (SIsEmpty (Z.to_N s))
+  | 37, [s] => Some (SMask (Z.to_N s))
+  | 38, [s] => Some (SSlice (Z.to_N s))
+  | 39, [s] => Some (SClear (Z.to_N s))
+  | 40, [s] => Some (SDrain (Z.to_N s))
+  | 41, [s; h; 0; _; _] => Some (SEntry (Z.to_N s) (Z.to_nat h) EnGet)
+  | 41, [s; h; 1; u; v] => Some (SEntry (Z.to_N s) (Z.to_nat h) (EnOrInsert (Z.to_N u, v)))
+  | 41, [s; h; 2; u; v] => Some (SEntry (Z.to_N s) (Z.to_nat h) (EnReplace (Z.to_N u, v)))
+  | 41, [s; h; 3; _; _] => Some (SEntry (Z.to_N s) (Z.to_nat h) EnRemove)
+  | 41, [s; h; 4; _; v] => Some (SEntry (Z.to_N s) (Z.to_nat h) (EnSetVal v))
+  | 42, [s; h] => Some (SGetMutOrDefault (Z.to_N s) (Z.to_nat h))
+  | 50, [s] => Some (SRegister (Z.to_N s))
+  | 70, [s] => Some (SRegReader (Z.to_N s))
+  | 71, [s; k] => Some (SReadEvents (Z.to_N s) (Z.to_nat k))
+  | 72, [s; b] => Some (SSetEmission (Z.to_N s) (zb b))
+  | _, _ => None
+  end%Z.
 
 Definition dec_op (code : Z) (p : list Z) : op :=
   match code, p with
@@ -77,7 +137,8 @@ Definition dec_op (code : Z) (p : list Z) : op :=
   | 22, [] => OJoinEntities
   | 23, [h] => OEntityAt (Z.to_nat h)
   | 24, [] => OProbeAll
-  | _, _ => OBad
+  | 99, [] => ODropWorld
+  | _, _ => match dec_sop code p with Some so => OStore so | None => OBad end
   end%Z.
 
 Fixpoint dec_ops (fuel : nat) (l : list Z) : list op :=
@@ -103,6 +164,14 @@ Definition decode_history (l : list Z) : list op := dec_ops (length l) l.
 Definition enc_ent (e : entity) : list Z := [Z.of_N (fst e); snd e].
 Definition enc_bool (b : bool) : Z := if b then 1%Z else 0%Z.
 
+Definition enc_tok (t : tok) : list Z := [Z.of_N (fst t); snd t].
+Definition enc_event (e : event) : list Z :=
+  match e with
+  | EInserted i => [0%Z; Z.of_N i]
+  | EModified i => [1%Z; Z.of_N i]
+  | ERemoved i => [2%Z; Z.of_N i]
+  end.
+
 Definition enc_out (o : wout) : list Z :=
   match o with
   | WHandles l => 1%Z :: Z.of_nat (length l) :: flat_map enc_ent l
@@ -115,6 +184,22 @@ Definition enc_out (o : wout) : list Z :=
   | WEnts l => 6%Z :: Z.of_nat (length l) :: flat_map enc_ent l
   | WUnit => [7%Z]
   | WSkip => [8%Z]
+  | WIns InsNew => [11%Z; 0%Z]
+  | WIns (InsOld t) => 11%Z :: 1%Z :: enc_tok t
+  | WIns (InsErr g) => [11%Z; 2%Z; g]
+  | WOptTok None => [12%Z; 0%Z]
+  | WOptTok (Some t) => 12%Z :: 1%Z :: enc_tok t
+  | WNat n => [13%Z; Z.of_N n]
+  | WIdx l => 14%Z :: Z.of_nat (length l) :: map Z.of_N l
+  | WToks l => 15%Z :: Z.of_nat (length l) :: flat_map enc_tok l
+  | WEntry (EnErr g) => [16%Z; 2%Z; g]
+  | WEntry EnNone => [16%Z; 0%Z]
+  | WEntry (EnTok t) => 16%Z :: 1%Z :: enc_tok t
+  | WSlice SliceNone => [17%Z; 0%Z]
+  | WSlice (SliceVec len l) => 17%Z :: 1%Z :: Z.of_N len :: Z.of_nat (length l) :: flat_map enc_tok l
+  | WSlice (SliceAll l) => 17%Z :: 2%Z :: Z.of_nat (length l) :: flat_map enc_tok l
+  | WEvents l => 18%Z :: Z.of_nat (length l) :: flat_map enc_event l
+  | WReader k => [19%Z; Z.of_nat k]
   end.
 
 Fixpoint dec_ents (n : nat) (l : list Z) : option (list entity) :=
@@ -122,6 +207,29 @@ Fixpoint dec_ents (n : nat) (l : list Z) : option (list entity) :=
   | O => match l with [] => Some [] | _ => None end
   | S n' => match l with
             | i :: g :: l' => match dec_ents n' l' with Some r => Some ((Z.to_N i, g) :: r) | None => None end
+            | _ => None
+            end
+  end.
+
+Fixpoint dec_toks (n : nat) (l : list Z) : option (list tok) :=
+  match n with
+  | O => match l with [] => Some [] | _ => None end
+  | S n' => match l with
+            | u :: v :: l' => match dec_toks n' l' with Some r => Some ((Z.to_N u, v) :: r) | None => None end
+            | _ => None
+            end
+  end.
+
+Fixpoint dec_events (n : nat) (l : list Z) : option (list event) :=
+  match n with
+  | O => match l with [] => Some [] | _ => None end
+  | S n' => match l with
+            | k :: i :: l' =>
+                match dec_events n' l' with
+                | Some r => Some ((if Z.eqb k 0 then EInserted (Z.to_N i)
+                                   else if Z.eqb k 1 then EModified (Z.to_N i) else ERemoved (Z.to_N i)) :: r)
+                | None => None
+                end
             | _ => None
             end
   end.
@@ -138,6 +246,23 @@ Definition dec_out (l : list Z) : option wout :=
   | 6 :: n :: r => match dec_ents (Z.to_nat n) r with Some es => Some (WEnts es) | None => None end
   | [7] => Some WUnit
   | [8] => Some WSkip
+  | [11; 0] => Some (WIns InsNew)
+  | [11; 1; u; v] => Some (WIns (InsOld (Z.to_N u, v)))
+  | [11; 2; g] => Some (WIns (InsErr g))
+  | [12; 0] => Some (WOptTok None)
+  | [12; 1; u; v] => Some (WOptTok (Some (Z.to_N u, v)))
+  | [13; n] => Some (WNat (Z.to_N n))
+  | 14 :: n :: r => if Nat.eqb (Z.to_nat n) (length r) then Some (WIdx (map Z.to_N r)) else None
+  | 15 :: n :: r => match dec_toks (Z.to_nat n) r with Some ts => Some (WToks ts) | None => None end
+  | [16; 2; g] => Some (WEntry (EnErr g))
+  | [16; 0] => Some (WEntry EnNone)
+  | [16; 1; u; v] => Some (WEntry (EnTok (Z.to_N u, v)))
+  | [17; 0] => Some (WSlice SliceNone)
+  | 17 :: 1 :: len :: n :: r =>
+      match dec_toks (Z.to_nat n) r with Some ts => Some (WSlice (SliceVec (Z.to_N len) ts)) | None => None end
+  | 17 :: 2 :: n :: r => match dec_toks (Z.to_nat n) r with Some ts => Some (WSlice (SliceAll ts)) | None => None end
+  | 18 :: n :: r => match dec_events (Z.to_nat n) r with Some es => Some (WEvents es) | None => None end
+  | [19; k] => Some (WReader (Z.to_nat k))
   | _ => None
   end%Z.
 
@@ -155,6 +280,14 @@ Fixpoint bools_eqb (a b : list bool) : bool :=
   | _, _ => false
   end.
 
+(* outputs are compared through their encodings *)
+Fixpoint zlist_eqb (x y : list Z) : bool :=
+  match x, y with
+  | [], [] => true
+  | u :: x', v :: y' => Z.eqb u v && zlist_eqb x' y'
+  | _, _ => false
+  end.
+
 Definition wout_eqb (x y : wout) : bool :=
   match x, y with
   | WHandles a, WHandles b => ents_eqb a b
@@ -167,7 +300,9 @@ Definition wout_eqb (x y : wout) : bool :=
   | WEnts a, WEnts b => ents_eqb a b
   | WUnit, WUnit => true
   | WSkip, WSkip => true
-  | _, _ => false
+  | WHandles _, _ | WKill _, _ | WKillDef _, _ | WBool _, _ | WBools _, _ | WEnts _, _ | WUnit, _ | WSkip, _ => false
+  | _, WHandles _ | _, WKill _ | _, WKillDef _ | _, WBool _ | _, WBools _ | _, WEnts _ | _, WUnit | _, WSkip => false
+  | _, _ => zlist_eqb (enc_out x) (enc_out y)
   end.
 
 (* handles returned by creation ops, in order *)
